@@ -20,6 +20,7 @@ void *F__Znwm(unsigned long n){ void*p=malloc(n?n:1);
 #ifdef __CPROVER__
   __CPROVER_assume(p!=0);
 #endif
+  RT_FRAME_NOTE_ALLOC(p);
   return p; }
 void F__ZdlPv(void*p){ free(p); }
 unsigned long F_strlen(unsigned char*s){ unsigned long n=0; while(s[n]) n++; return n; }
@@ -91,7 +92,7 @@ unsigned int F___cxa_atexit(void *f, void *a, void *d) { return 0; }
 unsigned char g___dso_handle;
 unsigned char *g__ZTISt9bad_alloc, *g__ZTISt9exception, *g__ZTISt12out_of_range, *g__ZTISt12system_error, *g__ZTISt12domain_error, *g__ZTISt11range_error, *g__ZTISt20bad_array_new_length;
 
-void *F__Znam(unsigned long n) { void *p = malloc(n ? n : 1); RT_ASSUME(p != 0); return p; }
+void *F__Znam(unsigned long n) { void *p = malloc(n ? n : 1); RT_ASSUME(p != 0); RT_FRAME_NOTE_ALLOC(p); return p; }
 void F__ZdaPv(void *p) { free(p); }
 /* log2 for the Elias-Fano low-width heuristic round(max(log2(u*ln2/m),1)): 16 fractional bits by repeated squaring */
 double F_log2(double x) {
@@ -105,3 +106,15 @@ double F_log2(double x) {
 }
 double F_log(double x) { return F_log2(x) * 0.6931471805599453; }
 void F___cxa_pure_virtual(void) { RT_TRAP(); }
+
+/* C16 frame registration (see rt.h) */
+int rt_frame_on; const void *rt_frame_obj[4]; const void *rt_frame_fresh[24]; unsigned rt_frame_nfresh;
+void F_verif_frame_begin(unsigned char *a, unsigned char *b, unsigned char *c, unsigned char *d) { rt_frame_obj[0] = a; rt_frame_obj[1] = b; rt_frame_obj[2] = c; rt_frame_obj[3] = d; rt_frame_nfresh = 0; rt_frame_on = 1; }
+void F_verif_frame_end(void) { rt_frame_on = 0; }
+#ifdef __CPROVER__
+void rt_frame_note(const void *p) {
+  if (!rt_frame_on) return;
+  __CPROVER_assert(rt_frame_nfresh < 24, "BOUND: more than 24 allocations during a framed query");
+  if (rt_frame_nfresh < 24) rt_frame_fresh[rt_frame_nfresh++] = p;
+}
+#endif
